@@ -2,7 +2,7 @@
 // xtl/xbase64.hpp.  Deliberately a different formulation from the code under test:
 //   * no 64-character string literal and no lookup table: the alphabet (RFC 4648 table 1) is given by range arithmetic;
 //   * encode works on 24-bit input groups / explicit tail cases (section 4), not on a running bit accumulator;
-//   * the "specification decode" assembles every output byte bit by bit from the sextet stream.
+//   * the "specification decode" is bit-serial (an 8-bit shift register fed one bit at a time), no shift-count arithmetic.
 // Everything is done on unsigned char; nothing here depends on the signedness of plain char.
 #ifndef VERIF_REFS_C13_RFC4648_HPP
 #define VERIF_REFS_C13_RFC4648_HPP
@@ -81,20 +81,26 @@ namespace ref4648
     // (padding, whitespace, NUL, any byte >= 0x80, ...) is ignored.
     inline void spec_decode(const bytes& in, bytes& out)
     {
-        std::size_t k = leading_run(in);
-        std::size_t nbytes = (6 * k) / 8;
+        const std::size_t k = leading_run(in);
         out.clear();
-        out.reserve(nbytes);
-        for (std::size_t j = 0; j < nbytes; ++j)
+        out.reserve((6 * k) / 8);
+        // bit-serial: the 6 bits of every character of the run, most significant first, go through an 8-bit shift register;
+        // a byte is emitted whenever 8 bits have been collected, so exactly floor(6k/8) bytes come out and the
+        // 0, 2 or 4 left-over bits are dropped
+        unsigned reg = 0;
+        int have = 0;
+        for (std::size_t i = 0; i < k; ++i)
         {
-            unsigned v = 0;
-            for (std::size_t b = 8 * j; b < 8 * j + 8; ++b)
+            const unsigned sext = static_cast<unsigned>(value_of(in[i]));
+            for (int bit = 5; bit >= 0; --bit)
             {
-                unsigned sext = static_cast<unsigned>(value_of(in[b / 6]));
-                unsigned bit = (sext >> (5 - (b % 6))) & 1u;
-                v = (v << 1) | bit;
+                reg = ((reg << 1) | ((sext >> bit) & 1u)) & 0xFFu;
+                if (++have == 8)
+                {
+                    out.push_back(static_cast<unsigned char>(reg));
+                    have = 0;
+                }
             }
-            out.push_back(static_cast<unsigned char>(v));
         }
     }
     inline bytes spec_decode(const bytes& in) { bytes out; spec_decode(in, out); return out; }
